@@ -60,7 +60,9 @@ class RefServer:
         more = offset + size < len(self.rep)
         at = c.get("mis_at", 1)
         if mis == "short_nonfinal_block2" and more and index >= at and not self.applied:
-            chunk = chunk[:-1]
+            # "missing payload bytes": one byte, half of the block, or all of it
+            cut = {"one": 1, "half": max(1, len(chunk) // 2), "all": len(chunk)}[c.get("mis_cut", "one")]
+            chunk = chunk[: len(chunk) - cut]
             self.applied = True
         elif mis == "overlong_final_block2" and not more and index >= 1:
             chunk = chunk + b"\x99" * (size - len(chunk) + 1)
@@ -292,6 +294,7 @@ def _case(draw):
         "etag": draw(st.booleans()),
         "misbehaviour": draw(st.sampled_from(MISBEHAVIOURS)),
         "mis_at": draw(st.integers(0, 3)),
+        "mis_cut": draw(st.sampled_from(["one", "half", "all"])),
         "rng": draw(st.integers(0, 99)),
     }
     if draw(st.integers(0, 3)) == 0:
@@ -324,7 +327,7 @@ RULE = (
     "One block-wise request (PUT/POST/FETCH/GET) through the default API of a real aiocoap client to an independent RFC 7959 reference server on a raw peer; generated: request and response "
     "body lengths from {0,1,15,16,17,31,32,33,63,64,65,1023,1024,1025,1124,1125,2048,2049,3000,5000}, client maximum_block_size_exp 0-6, the server's Block1 size preference per block index "
     "(non-increasing => mid-transfer reductions; optionally advertised even when larger than what the client sends), its Block2 size and an optional mid-transfer Block2 reduction with renumbering, ETag present or not, datagram fates (drop/dup/delay), and a "
-    "misbehaviour (none / wrong NUM in a Block1 ack / M=1 or 2.31 on the final ack / short non-final Block2 payload / over-long final Block2 payload / Block2 NUM skipped or repeated / ETag change). "
+    "misbehaviour (none / wrong NUM in a Block1 ack / M=1 or 2.31 on the final ack / non-final Block2 payload short by one byte, half a block or the whole block / over-long final Block2 payload / Block2 NUM skipped or repeated / ETag change). "
     "Oracle: conforming server => body reassembled by the reference server == API payload, result payload == representation, expected code, action executed once, and the reference server found every "
     "Block1/Block2 option contiguous (NUM x size == bytes so far), M exactly on non-final blocks, exponent never growing; failure only as NetworkError under loss. Misbehaving server (once the "
     "misbehaviour was actually applied) => the request must end in an aiocoap.error.Error; any result is a violation. Never a result whose payload differs from the representation. "
